@@ -53,14 +53,14 @@ Qed.
 Lemma push_value_x vk offs data s v' : OffsOk offs (length data) -> OffsX (is_wide vk) offs -> push_scalar (VStr s) (BdUtf8 vk None offs data) = Ok v' ->
   OffsX (is_wide vk) (offs ++ [Z.of_nat (length data + length s)]).
 Proof.
-  intros Ho Hx. cbn [push_scalar text_of_scalar set_validity bind]. intros H. apply bind_ok in H as (offs' & Hi & H).
+  intros Ho Hx. cbn [push_scalar text_of_scalar set_validity bind]. intros H. destruct (is_utf8_kind vk); [|discriminate H]. apply bind_ok in H as (offs' & Hi & H).
   rewrite <- (increment_dup _ _ _ _ _ Ho Hi). apply (increment_last_offsx _ _ _ _ (offs_len2 offs (proj1 Ho)) (OffsX_dup _ _ (proj1 Ho) Hx) Hi).
 Qed.
 
 Lemma push_value vk offs data s v' : OffsOk offs (length data) -> push_scalar (VStr s) (BdUtf8 vk None offs data) = Ok v' ->
   v' = BdUtf8 vk None (offs ++ [Z.of_nat (length data + length s)]) (data ++ s).
 Proof.
-  intros Ho. cbn [push_scalar text_of_scalar set_validity bind]. intros H. apply bind_ok in H as (offs' & Hi & H). injection H as <-.
+  intros Ho. cbn [push_scalar text_of_scalar set_validity bind]. intros H. destruct (is_utf8_kind vk); [|discriminate H]. apply bind_ok in H as (offs' & Hi & H). injection H as <-.
   rewrite (increment_dup _ _ _ _ _ Ho Hi). reflexivity.
 Qed.
 
